@@ -7,7 +7,7 @@
    [wf tr] says the returned log [tr] is honest (each recorded answer is the
    oracle's answer to the recorded query).  Numbering follows DESIGN.md §2 C07. *)
 From Coq Require Import ZArith List Bool Reals Floats.
-From ADV Require Import Base.Num C07.Model C07.Spec C07.Proofs C07.ProofsRprop C07.ProofsBfgs
+From ADV Require Import Base.Num C07.Model C07.Spec C07.Proofs C07.ProofsRprop C07.ProofsLS C07.ProofsBfgs
   C07.ProofsDense C07.ProofsAdam C07.Refuted.
 Import ListNotations.
 Open Scope Z_scope.
@@ -54,17 +54,19 @@ Theorem stop_condition_reevaluated : forall (f : query -> answer) eps tr x,
   a_err (f (QGrad x)) = false /\ ltb NM (norm NM (a_g (f (QGrad x)))) eps = true.
 Proof. exact (stop_ok_pure NM F HK CS). Qed.
 
-(* rprop_dense: only this weaker statement holds (see rprop_dense_stop_refuted) *)
-Theorem rprop_dense_stop_partial : forall (P : rp_params) fuel x0 x tr,
+(* rprop_dense (rprop.RunGradient) at HEAD: the full statement (was _partial before fix c65a3ee) *)
+Theorem rprop_dense_stop_condition : forall (P : rp_params) fuel x0 x tr,
   rprop_dense NM F HK CS P fuel x0 = (Converged x, tr) ->
-  wf F HK CS tr /\ some_point_passed NM P tr.
-  (* missing: the point that passed is the returned x — false for the code *)
-Proof. exact (rprop_dense_stop_partial_l NM F HK CS). Qed.
+  wf F HK CS tr /\ stop_ok NM (rp_eps P) tr x.
+Proof. exact (rprop_dense_stop_l NM F HK CS). Qed.
 
 (* ===== (2) hook arguments ===== *)
 Theorem rprop_hook_arguments : forall (P : rp_params) fuel x0,
   hooks_ok (snd (rprop NM F HK CS P fuel x0)).
 Proof. exact (rprop_hooks_l NM F HK CS). Qed.
+Theorem rprop_dense_hook_arguments : forall (P : rp_params) fuel x0,
+  hooks_ok (snd (rprop_dense NM F HK CS P fuel x0)).
+Proof. exact (rprop_dense_hooks_l NM F HK CS). Qed.
 Theorem gradient_descent_hook_arguments : forall (P : gd_params) fuel x0,
   hooks_ok (snd (gradient_descent NM F HK P fuel x0)).
 Proof. exact (gd_hooks_l NM F HK CS). Qed.
@@ -90,11 +92,24 @@ Proof. exact (rprop_cons_l NM F HK CS). Qed.
 Theorem rprop_dense_constraints : forall (P : rp_params) fuel x0,
   point_accepted (rp_cons P) (snd (rprop_dense NM F HK CS P fuel x0)) (fst (rprop_dense NM F HK CS P fuel x0)).
 Proof. exact (rprop_dense_cons_l NM F HK CS). Qed.
-(* adam: holds for returns through the stop test or the hook; the return at the iteration
-   cap is NOT covered (adam_cap_constraints_refuted) *)
-Theorem adam_constraints_partial : forall (P : ad_params) fuel x0,
-  ad_point_accepted P (snd (adam_dense NM F HK CS P fuel x0)) (fst (adam_dense NM F HK CS P fuel x0)).
-Proof. exact (adam_cons_partial_l NM F HK CS). Qed.
+(* adam at HEAD: the full statement, iteration cap included (was _partial before fix f6a3a16) *)
+Theorem adam_constraints : forall (P : ad_params) fuel x0,
+  point_accepted (ad_cons P) (snd (adam_dense NM F HK CS P fuel x0)) (fst (adam_dense NM F HK CS P fuel x0)).
+Proof. exact (adam_cons_l NM F HK CS). Qed.
+(* bfgs at HEAD (fix c75edfb passes the constraints to the line search): a rejected start point
+   is an error return, and every trial step of the line search's BRACKETING phase (for any
+   map [lsc] from step length to submitted point, so also bfgs's x1 + alpha p1) is evaluated
+   only after the callback accepted it.  Missing for the full statement: the trial steps of
+   zoom are not submitted (F-LS-ZOOM-CONS, linesearch_constraints_refuted), so the point
+   bfgs returns may come from an unchecked step length. *)
+Theorem bfgs_constraints_partial : forall (P : bf_params) fuel x0,
+  bf_cons P = true -> CS 0 x0 = false ->
+  bfgs NM K F HK CS P fuel x0 = (Err x0, [EvCons x0 false]).
+Proof. exact (bfgs_start_rejected_l NM K F HK CS). Qed.
+Theorem line_search_bracketing_trials_checked : forall (lsc : A -> list A) fuel aj tr aj' tr',
+  ls_cons_loop NM K CS lsc fuel aj tr = Some (aj', tr') ->
+  exists tr0, tr' = EvCons (lsc aj') true :: tr0.
+Proof. exact (ls_cons_loop_accepts NM K CS). Qed.
 Theorem constraints_reevaluated : forall (c : list A -> bool) tr x,
   (forall k y, CS k y = c y) -> wf F HK CS tr -> accepted true tr x -> c x = true.
 Proof. exact (accepted_pure F HK CS). Qed.
@@ -126,29 +141,30 @@ Theorem line_search_strong_wolfe_reals :
   wolfe_R (y 0%R) (g 0%R) al (y al) (g al).
 Proof. exact ls_wolfe_R. Qed.
 
-(* ===== refuted on the faithful model (known findings, reproduced on Go by corpus/C07) ===== *)
-Theorem rprop_dense_stop_refuted :
+(* ===== refuted on the faithful model (known finding F-LS-ZOOM-CONS) and regression witnesses ===== *)
+(* regression witnesses of defects repaired in /repo (c65a3ee, 8bc6fe7, c75edfb) *)
+Theorem rprop_dense_stop_regression :
   exists x tr, rprop_dense NumF Fsq noHK noCS P1 50 [1%float] = (Converged x, tr) /\
-     PrimFloat.ltb (norm NumF (a_g (sq (QGrad x)))) (rp_eps P1) = false.
-Proof. exact Refuted.rprop_dense_stop_refuted. Qed.
-Theorem rprop_dense_first_hook_refuted :
-  hook_gradients_honest sq (snd (rprop_dense NumF Fsq noHK noCS P2 50 [1%float])) = false /\
-  last (snd (rprop_dense NumF Fsq noHK noCS P2 50 [1%float])) (EvCons [] true)
-    = EvHook (mkHook [1%float] [1%float] None [0.5%float]) false.
-Proof. exact Refuted.rprop_dense_first_hook_refuted. Qed.
-Theorem bfgs_constraints_refuted :
-  exists x tr, bfgs NumF KF (fun _ => sh) noHK le1 P3 200 [0%float] = (Converged x, tr) /\
-     le1 0%nat x = false /\ submitted_and_accepted tr x = false /\ n_evals tr = 5%nat.
-Proof. exact Refuted.bfgs_constraints_refuted. Qed.
+     PrimFloat.ltb (norm NumF (a_g (sq (QGrad x)))) (rp_eps P1) = true.
+Proof. exact Refuted.rprop_dense_stop_regression. Qed.
+Theorem rprop_dense_first_hook_regression :
+  hook_gradients_honest sq (snd (rprop_dense NumF Fsq noHK noCS P2 50 [1%float])) = true /\
+  nth 1 (rev (snd (rprop_dense NumF Fsq noHK noCS P2 50 [1%float]))) (EvCons [] true)
+    = EvHook (mkHook [1%float] [2%float] None [0.5%float]) false.
+Proof. exact Refuted.rprop_dense_first_hook_regression. Qed.
+Theorem bfgs_constraints_regression :
+  exists x tr, bfgs NumF KF (fun _ => sh) noHK le1 P3 400 [0%float] = (Err x, tr) /\
+     le1 0%nat x = true /\ submitted_and_accepted tr x = true.
+Proof. exact Refuted.bfgs_constraints_regression. Qed.
 Theorem linesearch_constraints_refuted :
   exists al tr, line_search_run NumF KF (fun _ => phi) noHK near1 false true 100 1%float 20%Z = (LSConv al, tr) /\
      near1 0%nat [al] = false /\ submitted_and_accepted tr [al] = false.
 Proof. exact Refuted.linesearch_constraints_refuted. Qed.
 
-Theorem adam_cap_constraints_refuted :
+Theorem adam_cap_constraints_regression :
   exists x tr, adam_dense NumF Fsq noHK ge1 P4 10 [1%float] = (Cap x, tr) /\
-     ge1 0%nat x = false /\ submitted_and_accepted tr x = false.
-Proof. exact Refuted.adam_cap_constraints_refuted. Qed.
+     ge1 0%nat x = true /\ submitted_and_accepted tr x = true.
+Proof. exact Refuted.adam_cap_constraints_regression. Qed.
 
 (* the hypotheses are satisfiable: a run that does converge, with honest hooks *)
 Example rprop_converges_on_square :
